@@ -137,6 +137,15 @@ func (e *Executor) traverse(rt RequestTask) error {
 			// tell the loader we're online now
 			rt.ReconciledLoader.SetRemoteOnline(true)
 
+			// a request cancelled before this point was taken offline while it still was offline:
+			// going to the network now would wait for a response nobody will route to it
+			select {
+			case <-rt.Ctx.Done():
+				rt.ReconciledLoader.SetRemoteOnline(false)
+				return ipldutil.ContextCancelError{}
+			default:
+			}
+
 			if err := e.startRemoteRequest(rt); err != nil {
 				return err
 			}
